@@ -409,6 +409,14 @@ func (r *Raft) restore() error {
 			r.committedConfiguration = &committedConfiguration
 		}
 		r.configuration = &configuration
+
+		// The configuration is known to be committed if the commit index is not behind it. This
+		// is the case if this node is restarted and has applied the configuration before - the
+		// entry is not applied again.
+		if index <= r.commitIndex {
+			committedConfiguration := configuration.Clone()
+			r.committedConfiguration = &committedConfiguration
+		}
 	}
 
 	return nil
